@@ -216,6 +216,8 @@ void execute(const sim::Plan &plan) {
       if (S == 2) S = 1;
     } else {
       root->cleanup();
+      // the tear-down is the exact reverse of bring-up (all inits, then all starts): every stop precedes every cleanup
+      { bool seen_cleanup = false; for (size_t i = from; i < g_trace.size(); ++i) { if (g_trace[i].hook == K_CLEANUP) seen_cleanup = true; else if (g_trace[i].hook == K_STOP && seen_cleanup) { sim::violation("C11/stop-after-cleanup-began", sim::fmt("cleanup() of a running tree: onStop of n%d ran after another module had already been cleaned up (stops must all precede cleanups, the reverse of init-then-start)", g_trace[i].node)); break; } } }
       check_reverse_order(from, "cleanup()");
       account(from, "cleanup()");
       expect_balanced_none("after cleanup()");
